@@ -162,7 +162,7 @@ func (r *run) CreateStep(node flows.Node) flows.Step {
 }
 
 func (r *run) PathLocation() (flows.Step, flows.Node, error) {
-	if r.Path() == nil {
+	if len(r.Path()) == 0 {
 		return nil, nil, fmt.Errorf("run has no location as path is empty")
 	}
 
